@@ -159,6 +159,180 @@ def rule_hole_unwrap(ctx):
     ctx.floor(rule, "normal-form lookups in the front end", n, 2)
 
 
+FIRST = re.compile(r"(Iterator>::next$|Iterator::next$|::next_back$|slice::<impl \[T\]>::(first|last|split_first|split_last)$|Vec::<T, A>::pop$|"
+                   r"VecDeque::<T, A>::pop_(front|back)$|im::vector::Vector::<A>::(pop_front|pop_back|head|last|front|back)$|::max$|::min$)")
+PASS = re.compile(r"(::into_iter$|::iter$|::iter_mut$|Deref>::deref$|DerefMut>::deref_mut$|::as_slice$|::as_ref$|::as_mut$|::borrow$|::rev$|::chars$|"
+                  r"::char_indices$|::as_str$|::by_ref$|::peekable$|::enumerate$|::copied$|::cloned$)")
+
+# Declared invariants: (function suffix, producer) -> (number of unguarded sites, what the code relies on).
+# These are inventoried, not proved: the rule decides that no site appears or loses its guard without being looked at.
+FIRST_ELEMENT_INVENTORY = {
+    ("PackPiIntroduction> as zydeco_statics::check::Tyck<'a>>::tyck_inner_k", "next"): (1, "`a package telescope opens at least one witness`"),
+    ("ValuePackPiIntroduction> as zydeco_statics::check::Tyck<'a>>::tyck_inner_k", "next"): (1, "`a package telescope opens at least one witness`"),
+    ("bitter::syntax::TermId> as zydeco_statics::check::Tyck<'a>>::tyck_inner_k", "next"): (2, "`a package telescope opens at least one witness` (two Abs synthesis arms)"),
+    ("zydeco_statics::alloc::DerivedAllocator::current_site", "last"): (1, "the root allocation site is pushed at construction and never popped"),
+    ("zydeco_statics::check::copattern::ClauseState::pop", "pop_front"): (1, "called only after next_step() classified a present item (CopatternStep != End)"),
+    ("CopatternElaborator::combine_patterns", "next"): (1, "called with the patterns of a non-empty copattern argument tuple"),
+    ("CopatternElaborator::combine_values_k", "next"): (2, "called with a non-empty argument tuple (assert_eq on lengths precedes)"),
+    ("CopatternElaborator::finish_clauses_k", "first"): (1, "clauses is non-empty: elaboration starts from at least one clause"),
+    ("destruct::<impl zydeco_statics::syntax::VPatId>::reify", "next"): (1, "an alias pattern is non-empty (ConsN)"),
+    ("coverage::Constructor::rebuild", "next"): (3, "the witness row has arity() leading entries (constructor-tables rule of C04)"),
+    ("textual::syntax::PatId as zydeco_surface::bitter::desugar::Desugar>::desugar", "pop"): (1, "`_` arm of `match len` after the 0 and 1 arms: at least two elements"),
+    ("textual::syntax::TermId as zydeco_surface::bitter::desugar::Desugar>::desugar", "pop"): (1, "`_` arm of `match len` after the 0 and 1 arms: at least two elements"),
+    ("textual::syntax::TermId as zydeco_surface::bitter::desugar::Desugar>::desugar", "next"): (2, "application spine in the `_` arm of `match len`: at least two terms"),
+    ("desugar::TextualExistentialTelescope::new", "last"): (1, "an existential telescope starts from one Exists node"),
+    ("BindingContext::from_bindings", "next"): (1, "an SCC is non-empty"),
+    ("BindingContext::ready", "next"): (1, "a node of the condensation graph is non-empty"),
+    ("ContextNode::source_order", "min"): (1, "a context node contains at least one binding"),
+    ("escape::apply_char_escapes", "next"): (1, "CharLit's regex guarantees one character between the quotes"),
+    ("escape::apply_string_escapes", "next"): (1, "StrLit's regex pairs every backslash with a following character"),
+    ("PrettyFormatter::<'arena>::copattern_parameters", "next"): (1, "copattern applications are non-empty (grammar: x y)"),
+    ("PrettyFormatter::<'arena>::existential_telescope", "last"): (1, "an existential telescope has at least one parameter (grammar: ExistentialParameter+)"),
+    ("PrettyFormatter::<'arena>::exists", "last"): (1, "same: ExistentialParameter+"),
+    ("PrettyFormatter::<'arena>::parameter_telescope", "first"): (1, "called with the parameters of a non-empty telescope"),
+    ("PrettyFormatter::<'arena>::scoped_form", "first"): (1, "a scoped telescope has at least one parameter"),
+    ("PrettyFormatter::<'arena>::scoped_form", "last"): (1, "same"),
+    ("PrettyFormatter::<'arena>::scoped_telescope", "last"): (1, "the telescope starts from its root layer"),
+    ("PrettyFormatter::<'arena>::separated_group_layout", "first"): (1, "guarded by the caller: items non-empty"),
+    ("comment::CommentBlocks::<'source>::comment", "first"): (1, "comment blocks are non-empty (grouping yields at least one token)"),
+    ("comment::CommentBlocks::<'source>::comment", "last"): (1, "same"),
+}
+
+
+def _roots(b, local, seen=None):
+    seen = seen if seen is not None else set()
+    if local in seen: return set()
+    seen.add(local)
+    out=set()
+    defs=b.defs_of(local)
+    if not defs: return {local}
+    for d in defs:
+        if d[0]=='call':
+            t=d[3]
+            if PASS.search(t['fn']) and t['args']:
+                a=M.op_place(t['args'][0])
+                if a is not None: out|=_roots(b,M.place_local(a),seen); continue
+            out.add(local)
+        else:
+            rv=d[3]['rv']
+            p=None
+            if rv['k']=='use': p=M.op_place(rv['ops'][0])
+            elif rv['k'] in('ref','copyderef'): p=rv['p']
+            if p is not None: out|=_roots(b,M.place_local(p),seen)
+            else: out.add(local)
+    return out
+def _guards(b):
+    g=[]
+    for bb,t in b.calls():
+        fn=t['fn']
+        if fn.endswith('::is_empty') and t['args']:
+            a=M.op_place(t['args'][0])
+            sw=b.switch_on_bool_call(bb)
+            if a is not None and sw: g.append((_roots(b,M.place_local(a)), sw[1], 'is_empty'))
+        if fn.endswith('::len') and t['args'] and isinstance(t.get('dest'),int):
+            a=M.op_place(t['args'][0])
+            if a is None: continue
+            r=_roots(b,M.place_local(a))
+            # direct switch on len
+            cur=t.get('t'); L={t['dest']}
+            seen=set()
+            while cur is not None and cur not in seen:
+                seen.add(cur)
+                for s in b.stmts(cur):
+                    rv=s['rv']
+                    if rv['k']=='use':
+                        p=M.op_place(rv['ops'][0])
+                        if p is not None and M.place_local(p) in L and isinstance(s['d'],int): L.add(s['d'])
+                    if rv['k']=='bin' and rv.get('op') in('Eq','Ne','Gt','Ge','Lt','Le'):
+                        p=M.op_place(rv['ops'][0]); k=M.op_const(rv['ops'][1])
+                        if p is not None and M.place_local(p) in L and k is not None and isinstance(s['d'],int):
+                            try: kv=int(k.get('bits'))
+                            except: continue
+                            term=b.term(cur)
+                            if term['k']=='switch' and M.op_place(term['discr']) is not None and M.place_local(M.op_place(term['discr']))==s['d']:
+                                tg={int(v):x for v,x in term['targets']}
+                                f_=tg.get(0); t_=term['otherwise']
+                                op=rv['op']
+                                if op=='Eq' and kv>=1: g.append((r,t_,'len==%d'%kv))
+                                if op=='Ne' and kv>=1 and f_ is not None: g.append((r,f_,'len!=%d false'%kv))
+                                if op=='Gt' and kv>=0: g.append((r,t_,'len>%d'%kv))
+                                if op=='Ge' and kv>=1: g.append((r,t_,'len>=%d'%kv))
+                term=b.term(cur)
+                if term['k']=='switch':
+                    dp=M.op_place(term['discr'])
+                    if dp is not None and M.place_local(dp) in L:
+                        for v,x in term['targets']:
+                            if int(v)>=1: g.append((r,x,'match len %s'%v))
+                    break
+                if term['k'] in('goto','drop'): cur=term['t']; continue
+                break
+    return g
+
+
+def rule_first_element(ctx):
+    rule = "first-element-unwrap"
+    facts = ctx.facts
+    ctx.rule(rule, "every unwrap/expect of the first / last / next element of a sequence in the front-end crates is dominated by a "
+                   "non-emptiness test of the same sequence (is_empty false edge, a len comparison or `match len` arm implying >= 1; "
+                   "proved on MIR), or belongs to the inventory of declared invariants (function, producer, count). A site that "
+                   "appears, or loses its guard, without being inventoried is reported")
+    found = {}
+    proved = 0
+    total = 0
+    where = {}
+    for tag in facts.tags():
+        if not tag.startswith(FRONT_CRATES) or tag.endswith("-test"):
+            continue
+        idx = facts.index(tag)
+        owners = sorted(set(c["from"] for c in idx["calls"] if UNWRAP.search(c["to"])))
+        for o in owners:
+            bd = facts.bodies()[o]
+            if "/out/" in bd["loc"][0] or bd.get("expn"):
+                continue
+            m = facts.mir(o)
+            if m is None:
+                continue
+            b = M.Body(o, m)
+            G = None
+            for bb, t in b.calls():
+                if not UNWRAP.search(t["fn"]):
+                    continue
+                a = M.op_place(t["args"][0])
+                if a is None:
+                    continue
+                for src in _trace_sources(b, M.place_local(a)):
+                    if not (FIRST.search(src["fn"]) or FIRST.search(src.get("decl") or "")):
+                        continue
+                    total += 1
+                    if G is None:
+                        G = _guards(b)
+                    ra = M.op_place(src["args"][0]) if src["args"] else None
+                    R = _roots(b, M.place_local(ra)) if ra is not None else set()
+                    why = [w for (r, edge, w) in G if r & R and b.dominates(edge, bb)]
+                    prod = src["fn"].split("::")[-1]
+                    owner = o.split("::{closure")[0]
+                    if why:
+                        proved += 1
+                        ctx.ok(rule, "%s:%s:guarded" % (_fshort(owner), prod), {"fn": _fshort(owner), "producer": prod, "guard": why[0]})
+                    else:
+                        found[(owner, prod)] = found.get((owner, prod), 0) + 1
+                        where.setdefault((owner, prod), [bd["loc"][0], t.get("ln")])
+    for (owner, prod), n in sorted(found.items()):
+        ent = next(((k, v) for k, v in FIRST_ELEMENT_INVENTORY.items() if owner.endswith(k[0]) and k[1] == prod), None)
+        allowed = ent[1][0] if ent else 0
+        ctx.check(n <= allowed, rule, "%s:%s" % (_fshort(owner), prod), "%s has %d unguarded unwrap(s) of `%s()` (inventoried: %d): an empty "
+                  "sequence reaching it panics the front end; either prove the guard locally or audit the invariant" % (owner, n, prod, allowed),
+                  where[(owner, prod)], detail={"fn": _fshort(owner), "producer": prod, "unguarded": n, "declared_invariant": ent[1][1] if ent else None})
+    ctx.note("%s: %d sites, %d guard-proved on MIR, %d inventoried as declared invariants" % (rule, total, proved, total - proved))
+    ctx.floor(rule, "first-element unwrap sites", total, 30)
+    ctx.floor(rule, "guard-proved sites", proved, 6)
+
+
+def _fshort(p):
+    p = re.sub(r"zydeco_\w+::", "", p)
+    return p[-60:]
+
+
 def rule_text_unwrap(ctx):
     rule = "text-unwrap"
     ctx.rule(rule, "no unwrap/expect of a text-to-value conversion in the front-end crates outside the table of "
@@ -448,6 +622,7 @@ def rule_exit_path(ctx):
 def run(ctx):
     rule_text_unwrap(ctx)
     rule_hole_unwrap(ctx)
+    rule_first_element(ctx)
     rule_arm_div(ctx)
     rule_stripped_arena(ctx)
     rule_exit_path(ctx)
